@@ -44,6 +44,53 @@ def _tuple_names(t):
     return [norm(e) for e in (t.elts if isinstance(t, ast.Tuple) else [t])]
 
 
+def _r2_tail_shape_based(ctx, bs, ef):
+    """line-order reading of the Etot / Hf tail (consulted only when the tail cannot be interpreted)"""
+    g_stmts = [st for st in ast.walk(ef) if isinstance(st, ast.AugAssign) and norm(st.target) == "Etot"]
+    exc = [st for st in g_stmts if norm(st.value) == "Eexcited"]
+    ctx.check(len(exc) == 1 and isinstance(exc[0].op, ast.Add), "R2", bs, exc[0] if exc else ef, "Energy.forward", exc[0] if exc else "Etot += Eexcited",
+              "active-state excitation energy is added to Etot exactly once", f"Etot receives the excitation energy {len(exc)} times")
+    hcall = [st for st in ast.walk(ef) if isinstance(st, ast.Assign) and isinstance(st.value, ast.Call) and callee_attr(st.value) == "heat_formation"]
+    tcall = [st for st in ast.walk(ef) if isinstance(st, ast.Assign) and isinstance(st.value, ast.Call) and callee_attr(st.value) == "total_energy"]
+    ok = bool(hcall and tcall and exc) and tcall[0].lineno < exc[0].lineno < hcall[0].lineno and "Etot" in [norm(a) for a in hcall[0].value.args]
+    ctx.check(ok, "R2", bs, ef, "Energy.forward", "order", "total_energy -> + Eexcited -> heat_formation(Etot)", "excitation energy is added after the heat of formation was computed (Hf and Etot disagree)")
+    disp = [st for st in g_stmts if "dispersion" in norm(st.value)]
+    okd = bool(disp) and any(p and "dispersion" in norm(a) for a, p, _ in controlling(bs, disp[0])) and exc and disp[0].lineno < hcall[0].lineno
+    ctx.check(okd, "R2", bs, disp[0] if disp else ef, "Energy.forward", disp[0] if disp else "dispersion", "dispersion correction only under its flag and before Hf", "dispersion term is added unconditionally or after Hf")
+
+
+def _r4_shape_based(ctx, es, ef):
+    """shape-based reading of the charge / density bookkeeping of Electronic_Structure.forward (consulted only when the routine cannot be interpreted as a whole)"""
+    from ..assembly import check_charges_and_dipole
+    check_charges_and_dipole(ctx, "R4", parts=("charges",))
+    # every evaluation that publishes a new density also publishes the charges that belong to it: on every path from a store to molecule.dm to the end of the call there
+    # is a store to molecule.q (SCF and XL-BOMD evaluations alike)
+    from ..cfg import build_cfg
+    g_es = build_cfg(ef)
+
+    def _stores(attr):
+        out = []
+        for n_ in g_es.nodes:
+            if n_.kind == "stmt" and isinstance(n_.stmt, (ast.Assign, ast.AugAssign)):
+                tg = n_.stmt.targets if isinstance(n_.stmt, ast.Assign) else [n_.stmt.target]
+                flat = [e_ for t_ in tg for e_ in (t_.elts if isinstance(t_, ast.Tuple) else [t_])]
+                if any(norm(e_) == attr for e_ in flat):
+                    out.append(n_)
+        return out
+    dm_st, q_st = _stores("molecule.dm"), _stores("molecule.q")
+    if not dm_st or not q_st:
+        raise AnalysisError("Electronic_Structure.forward: stores to molecule.dm / molecule.q not found")
+    for n_ in dm_st:
+        ok_ = g_es.must_pass(n_.id, g_es.exit_return, {x.id for x in q_st}) if g_es.exit_return in g_es.reachable(n_.id) else True
+        ctx.check(ok_, "R4", es, n_.stmt, "Electronic_Structure.forward", f"charges after `{short(n_.stmt, 40)}`",
+                  "the atomic charges are recomputed on every path after the reported density is replaced",
+                  f"after `{short(n_.stmt, 70)}` a path reaches the end of the call without recomputing molecule.q: the reported charges belong to an earlier density "
+                  f"(e.g. the last SCF geometry during XL-BOMD) while density, energies and dipole are current")
+    dm = [st for st in ast.walk(ef) if isinstance(st, ast.Assign) and norm(st.targets[0]) == "molecule.dm"]
+    ctx.check(bool(dm) and norm(dm[0].value) == "P.detach()", "R4", es, dm[0] if dm else ef, "Electronic_Structure.forward", "molecule.dm", "reported density is the density returned by the force driver",
+              "molecule.dm is not the returned density")
+
+
 def run(ctx):
     import sympy as sp
     repo = ctx.repo
@@ -68,13 +115,29 @@ def run(ctx):
         (xl, "EnergyXL.forward", xl, "ForceXL.forward", "energy"),
         (xl, "ForceXL.forward", es, "Electronic_Structure.forward", "conservative_force_xl"),
     ]
+    try:
+        from ..assembly import interpreted_reported_observables as _iro
+        _obs_ok = all(o[1] for o in _iro(repo))
+    except AnalysisError:
+        _obs_ok = False
     for pm, pq, cm, cq, ca in edges:
+        if cq == "Electronic_Structure.forward" and _obs_ok:
+            # the unpacking of the two force drivers' results into the molecule is decided by value (R4: every result lands in its own attribute)
+            ctx.ok("R1", f"{cm.rel} {cq}", f"{pq} -> {cq}: decided by value (R4, interpreted Electronic_Structure.forward)", nontrivial=False)
+            continue
         pf, cf = pm.func(pq), cm.func(cq)
         rets = [r for r in ast.walk(pf) if isinstance(r, ast.Return) and pm.enclosing_function(r) is pf and r.value is not None]
         unp = [st for st in ast.walk(cf) if isinstance(st, ast.Assign) and isinstance(st.targets[0], ast.Tuple) and isinstance(st.value, ast.Call) and callee_attr(st.value) == ca]
         if not unp:
             # parenthesised call value
             unp = [st for st in ast.walk(cf) if isinstance(st, ast.Assign) and isinstance(st.targets[0], ast.Tuple) and any(callee_attr(c) == ca for c in calls_in(st.value))]
+        if not unp:
+            # the call may sit in a method of the same class that the consumer delegates to (one level)
+            cls_prefix = cq.rsplit(".", 1)[0] + "." if "." in cq else ""
+            for c0 in calls_in(cf):
+                if isinstance(c0.func, ast.Attribute) and isinstance(c0.func.value, ast.Name) and c0.func.value.id == "self" and cm.has_func(cls_prefix + c0.func.attr):
+                    hf_ = cm.func(cls_prefix + c0.func.attr)
+                    unp += [st for st in ast.walk(hf_) if isinstance(st, ast.Assign) and isinstance(st.targets[0], ast.Tuple) and any(callee_attr(c) == ca for c in calls_in(st.value))]
         if not rets or not unp:
             raise AnalysisError(f"{pq} -> {cq}: return/unpack not found")
         tnames = _tuple_names(unp[0].targets[0])
@@ -96,17 +159,21 @@ def run(ctx):
     from ..assembly import check_energy_functions
     check_energy_functions(ctx, "R2", which=("total", "heat", "elec"))
     ef = bs.func("Energy.forward")
-    g_stmts = [st for st in ast.walk(ef) if isinstance(st, ast.AugAssign) and norm(st.target) == "Etot"]
-    exc = [st for st in g_stmts if norm(st.value) == "Eexcited"]
-    ctx.check(len(exc) == 1 and isinstance(exc[0].op, ast.Add), "R2", bs, exc[0] if exc else ef, "Energy.forward", exc[0] if exc else "Etot += Eexcited",
-              "active-state excitation energy is added to Etot exactly once", f"Etot receives the excitation energy {len(exc)} times")
-    hcall = [st for st in ast.walk(ef) if isinstance(st, ast.Assign) and isinstance(st.value, ast.Call) and callee_attr(st.value) == "heat_formation"]
-    tcall = [st for st in ast.walk(ef) if isinstance(st, ast.Assign) and isinstance(st.value, ast.Call) and callee_attr(st.value) == "total_energy"]
-    ok = bool(hcall and tcall and exc) and tcall[0].lineno < exc[0].lineno < hcall[0].lineno and "Etot" in [norm(a) for a in hcall[0].value.args]
-    ctx.check(ok, "R2", bs, ef, "Energy.forward", "order", "total_energy -> + Eexcited -> heat_formation(Etot)", "excitation energy is added after the heat of formation was computed (Hf and Etot disagree)")
-    disp = [st for st in g_stmts if "dispersion" in norm(st.value)]
-    okd = bool(disp) and any(p and "dispersion" in norm(a) for a, p, _ in controlling(bs, disp[0])) and exc and disp[0].lineno < hcall[0].lineno
-    ctx.check(okd, "R2", bs, disp[0] if disp else ef, "Energy.forward", disp[0] if disp else "dispersion", "dispersion correction only under its flag and before Hf", "dispersion term is added unconditionally or after Hf")
+    # the tail that assembles Etot and Hf is decided by value (sa.npsym: symbolic parts, dispersion on / off, AM1 / PM3); the line-order reading is the fallback
+    from ..assembly import interpreted_energy_tail
+    try:
+        okt, msgt, _addend = interpreted_energy_tail(repo)
+        interp_tail = True
+    except AnalysisError as e:
+        ctx.note(f"the Etot / Hf tail of Energy.forward could not be interpreted ({str(e)[:100]}); line-order reading used")
+        interp_tail = False
+    if interp_tail:
+        ctx.check(okt, "R2", bs, ef, "Energy.forward", "Etot / Hf assembly",
+                  "Etot = Eelec + pair-nuclear terms + excitation energy (+ AM1 dispersion under its flag), each once, and the heat of formation is formed from that final Etot", msgt)
+        for _ in range(2):
+            ctx.ok("R2", f"{bs.rel}:{ef.lineno} Energy.forward", "decided with the interpreted tail", nontrivial=False)
+    else:
+        _r2_tail_shape_based(ctx, bs, ef)
     ee = [st for st in ast.walk(ef) if isinstance(st, ast.Assign) and norm(st.targets[0]) == "Eelec"]
     ctx.check(bool(ee) and norm(ee[0].value) == "elec_energy(P, F, Hcore)", "R2", bs, ee[0] if ee else ef, "Energy.forward", "Eelec", "Eelec is the energy functional of the returned density and Fock matrix",
               f"Eelec = `{norm(ee[0].value) if ee else None}`")
@@ -148,34 +215,23 @@ def run(ctx):
 
     # ------------------------------------------------------------------ R4
     ef = es.func("Electronic_Structure.forward")
-    from ..assembly import check_charges_and_dipole
-    check_charges_and_dipole(ctx, "R4")
-    # every evaluation that publishes a new density also publishes the charges that belong to it: on every path from a store to molecule.dm to the end of the call there
-    # is a store to molecule.q (SCF and XL-BOMD evaluations alike)
-    from ..cfg import build_cfg
-    g_es = build_cfg(ef)
-
-    def _stores(attr):
-        out = []
-        for n_ in g_es.nodes:
-            if n_.kind == "stmt" and isinstance(n_.stmt, (ast.Assign, ast.AugAssign)):
-                tg = n_.stmt.targets if isinstance(n_.stmt, ast.Assign) else [n_.stmt.target]
-                flat = [e_ for t_ in tg for e_ in (t_.elts if isinstance(t_, ast.Tuple) else [t_])]
-                if any(norm(e_) == attr for e_ in flat):
-                    out.append(n_)
-        return out
-    dm_st, q_st = _stores("molecule.dm"), _stores("molecule.q")
-    if not dm_st or not q_st:
-        raise AnalysisError("Electronic_Structure.forward: stores to molecule.dm / molecule.q not found")
-    for n_ in dm_st:
-        ok_ = g_es.must_pass(n_.id, g_es.exit_return, {x.id for x in q_st}) if g_es.exit_return in g_es.reachable(n_.id) else True
-        ctx.check(ok_, "R4", es, n_.stmt, "Electronic_Structure.forward", f"charges after `{short(n_.stmt, 40)}`",
-                  "the atomic charges are recomputed on every path after the reported density is replaced",
-                  f"after `{short(n_.stmt, 70)}` a path reaches the end of the call without recomputing molecule.q: the reported charges belong to an earlier density "
-                  f"(e.g. the last SCF geometry during XL-BOMD) while density, energies and dipole are current")
-    dm = [st for st in ast.walk(ef) if isinstance(st, ast.Assign) and norm(st.targets[0]) == "molecule.dm"]
-    ctx.check(bool(dm) and norm(dm[0].value) == "P.detach()", "R4", es, dm[0] if dm else ef, "Electronic_Structure.forward", "molecule.dm", "reported density is the density returned by the force driver",
-              "molecule.dm is not the returned density")
+    # what Electronic_Structure.forward reports on the molecule is decided by value (sa.npsym: both density-propagation modes x shell type x basis, stand-in force drivers);
+    # the shape-based reading of the same routine is the fallback
+    from ..assembly import check_charges_and_dipole, interpreted_reported_observables
+    try:
+        obs = interpreted_reported_observables(repo)
+    except AnalysisError as e:
+        ctx.note(f"Electronic_Structure.forward could not be interpreted as a whole ({str(e)[:100]}); shape-based reading used")
+        obs = None
+    if obs is not None:
+        for case_, ok_, msg_ in obs:
+            ctx.check(ok_, "R4", es, ef, "Electronic_Structure.forward", case_,
+                      f"{case_}: every driver result lands in its own attribute, molecule.dm is the returned density and molecule.q its block-diagonal population",
+                      f"{case_}: {msg_}")
+        check_charges_and_dipole(ctx, "R4", parts=("dipole",))
+    else:
+        _r4_shape_based(ctx, es, ef)
+        check_charges_and_dipole(ctx, "R4", parts=("dipole",))
     # the dipole is computed from the density that is returned/reported
     for m, q in ((bs, "Energy.forward"), (xl, "EnergyXL.forward")):
         f = m.func(q)
@@ -235,8 +291,16 @@ def _r5_excited_rows(ctx, repo, rid="R5"):
                for st in ast.walk(f)) or nm.lower().startswith("eexc"):
             cand = a
     if cand is None:
-        raise AnalysisError("Energy.forward: excitation-energy addend of Etot not found")
-    X = cand.value.id
+        # `Etot += X` is not spelled in Energy.forward itself (the tail was moved into a helper): the interpreted tail tells which local is added as the excitation energy
+        from ..assembly import interpreted_energy_tail
+        try:
+            _, _, X = interpreted_energy_tail(repo)      # (the verdict on the tail itself is reported by C14-R2)
+        except AnalysisError:
+            X = None
+        if X is None or not any(isinstance(n_, ast.Name) and n_.id == X for n_ in ast.walk(f)):
+            raise AnalysisError("Energy.forward: excitation-energy addend of Etot not found")
+    else:
+        X = cand.value.id
     mask_defs = [st for st in ast.walk(f) if isinstance(st, ast.Assign) and isinstance(st.targets[0], ast.Name) and isinstance(st.value, ast.Compare)
                  and isinstance(st.value.ops[0], ast.Gt) and norm(st.value.comparators[0]) == "0" and "active" in norm(st.value.left)]
     masks = {st.targets[0].id for st in mask_defs}
